@@ -53,6 +53,10 @@ def _is_pure(e):
         return all(_is_pure(x) for x in e.elts)
     if isinstance(e, ast.JoinedStr):
         return all(_is_pure(v.value) if isinstance(v, ast.FormattedValue) else True for v in e.values)
+    if isinstance(e, (ast.ListComp, ast.SetComp, ast.GeneratorExp)):
+        return _is_pure(e.elt) and all(_is_pure(g.iter) and all(_is_pure(c) for c in g.ifs) for g in e.generators)
+    if isinstance(e, ast.DictComp):
+        return _is_pure(e.key) and _is_pure(e.value) and all(_is_pure(g.iter) and all(_is_pure(c) for c in g.ifs) for g in e.generators)
     if isinstance(e, ast.Call):
         if e.keywords and any(k.arg is None for k in e.keywords):
             return False
@@ -538,6 +542,33 @@ def _dict_literals_to_calls(tree):
     return k
 
 
+def _ifexp_statements(fn):
+    """`x = a if c else b` -> `if c: x = a else: x = b`;  `return a if c else b` -> `if c: return a else: return b` (top-level conditional
+    expressions only; the value of x / the returned value is the same on every path)."""
+    k = 0
+    import copy
+    for node in ast.walk(fn):
+        for b in _blocks_of(node):
+            i = 0
+            while i < len(b):
+                st = b[i]
+                v = getattr(st, "value", None)
+                if isinstance(st, (ast.Assign, ast.Return)) and isinstance(v, ast.IfExp) and \
+                        not (isinstance(st, ast.Assign) and any(isinstance(t, (ast.Subscript, ast.Attribute)) and not _is_pure(t) for t in st.targets)):
+                    def mk(val):
+                        if isinstance(st, ast.Return):
+                            return ast.Return(value=val)
+                        return ast.Assign(targets=copy.deepcopy(st.targets), value=val)
+                    new = ast.If(test=v.test, body=[mk(v.body)], orelse=[mk(v.orelse)])
+                    ast.copy_location(new, st)
+                    ast.fix_missing_locations(new)
+                    b[i] = new
+                    k += 1
+                    continue        # re-examine: nested conditional expressions
+                i += 1
+    return k
+
+
 def _find_fn(m, qual):
     if "." in qual:
         cn, mn = qual.split(".", 1)
@@ -665,6 +696,9 @@ def canonicalise(repo):
                 k = _expand_generator_idioms(fn)
                 if k:
                     done.append((m.name, fn.name, "<generator idioms expanded>", k))
+                k = _ifexp_statements(fn)
+                if k:
+                    done.append((m.name, fn.name, "<conditional expressions as statements>", k))
                 _strip_double_not(fn)
                 k = _normalise_negated_ifs(fn)
                 if k:
